@@ -141,6 +141,9 @@ def check (p : Policy) (t : Tag) (bad : Bool) : Except Kind Unit :=
 def hard (k : Kind) (bad : Bool) : Except Kind Unit :=
   if bad then .error k else .ok ()
 
+/-- `if b { x }` as a statement -/
+def whenE (b : Bool) (x : Except Kind Unit) : Except Kind Unit := if b then x else .ok ()
+
 /-- plain `a + b` on u64 in an overflow-checked build -/
 def addU64 (a b : Nat) : Except Kind Nat := if a + b ≤ U64.MAX then .ok (a + b) else .error .panic
 /-- plain `a + b` on u32 in an overflow-checked build -/
@@ -275,9 +278,9 @@ def validateSetupChannel (p : Policy) (s : Setup) : Except Kind Unit := do
 /-- `Node::setup_channel` as far as it decides: the funder's `channel_value_sat * 1000` (plain `*`),
     `checked_sub(push_value_msat)` (unfiltered), then `validate_setup_channel`. -/
 def setupChannel (p : Policy) (s : Setup) : Except Kind Unit := do
-  if s.isOutbound then
+  whenE s.isOutbound (do
     let v ← mulU64 s.channelValue 1000
-    hard .balance (decide (v < s.pushMsat))
+    hard .balance (decide (v < s.pushMsat)))
   validateSetupChannel p s
 
 /-- `validate_channel_value` -/
@@ -346,33 +349,39 @@ def ensureFundingBuried (p : Policy) (c : ChainState) (n : Nat) : Except Kind Un
 def prevSel {α} (e : EState) (n : Nat) (cur prev : Option α) : Option α :=
   if n + 1 = e.nextCp then cur else if n + 2 = e.nextCp then prev else none
 
+/-- retry of a counterparty commitment: the point must be the recorded one -/
+def cpRetryPoint (p : Policy) (e : EState) (point : Nat) : Except Kind Unit :=
+  match e.curCpPoint with
+  | none => policyErr p .retrySame
+  | some prev => check p .retrySame (decide (point ≠ prev))
+
+/-- retry of a holder commitment: same content (`expect` = panic when no current info) -/
+def holderRetry (p : Policy) (e : EState) (i : Info) : Except Kind Unit :=
+  match e.curHolderInfo with
+  | none => .error .panic
+  | some cur => check p .retrySame (decide (i ≠ cur))
+
 /-- `validate_counterparty_commitment_tx` (on-chain wrapper when `p.onchain`) -/
 def validateCounterparty (p : Policy) (s : Setup) (c : ChainState) (e : EState) (n : Nat) (point : Nat)
     (i : Info) : Except Kind Unit := do
-  if p.onchain then ensureFundingBuried p c n
+  whenE p.onchain (ensureFundingBuried p c n)
   validateCommitmentTx p s c n i
   let r1 ← addU64 e.nextRevoke 1
   check p .previousRevoked (decide (n > r1))
   let n1 ← addU64 n 1
-  if n1 = e.nextCp then
-    match e.curCpPoint with
-    | none => policyErr p .retrySame
-    | some prev => check p .retrySame (decide (point ≠ prev))
+  whenE (decide (n1 = e.nextCp)) (do
+    cpRetryPoint p e point
     -- get_previous_counterparty_commit_info(commit_num): `num + 1 == next` holds here
-    check p .retrySame (decide (some i ≠ e.curCpInfo))
+    check p .retrySame (decide (some i ≠ e.curCpInfo)))
 
 /-- `validate_holder_commitment_tx` (on-chain wrapper when `p.onchain`).
     `expect("current_holder_commit_info")` is a panic when the info is missing. -/
 def validateHolder (p : Policy) (s : Setup) (c : ChainState) (e : EState) (n : Nat) (i : Info) :
     Except Kind Unit := do
-  if p.onchain then
-    if e.nextHolder ≤ n then ensureFundingBuried p c n
+  whenE (p.onchain && decide (e.nextHolder ≤ n)) (ensureFundingBuried p c n)
   validateCommitmentTx p s c n i
   let n1 ← addU64 n 1
-  if n1 = e.nextHolder then
-    match e.curHolderInfo with
-    | none => .error .panic
-    | some cur => check p .retrySame (decide (i ≠ cur))
+  whenE (decide (n1 = e.nextHolder)) (holderRetry p e i)
   let n2 ← addU64 n 2
   check p .holderNotRevoked (decide (n2 ≤ e.nextHolder))
   check p .spendsActiveUtxo (decide (n = e.nextHolder ∧ e.closed))
@@ -403,13 +412,12 @@ def msatPanics (p : Policy) (i : Info) : Bool :=
 
 /-- `Validator::set_next_counterparty_commit_num` + `EnforcementState::set_next_counterparty_commit_num` -/
 def setNextCpCommit (p : Policy) (e : EState) (num : Nat) (point : Nat) (i : Info) : Except Kind EState := do
-  if num = 0 then
-    policyErr p .policyOther
+  whenE (decide (num = 0)) (policyErr p .policyOther)
   let delta := if num = 1 then 1 else 2
   check p .previousRevoked (decide (num < e.nextRevoke + delta))
   let cur := e.nextCp
   check p .previousRevoked (decide (num ≠ cur ∧ num ≠ cur + 1))
-  if num = 0 then .error .panic  -- assert!(num > 0)
+  whenE (decide (num = 0)) (.error .panic)  -- assert!(num > 0)
   let e1 : EState :=
     if num = cur + 1 then { e with prevCpPoint := e.curCpPoint, prevCpInfo := e.curCpInfo, curCpInfo := none }
     else if num > cur + 1 ∨ num < cur then { e with prevCpPoint := none, prevCpInfo := none }
@@ -420,12 +428,11 @@ def setNextCpCommit (p : Policy) (e : EState) (num : Nat) (point : Nat) (i : Inf
 
 /-- `Validator::set_next_counterparty_revoke_num` + `EnforcementState::set_next_counterparty_revoke_num` -/
 def setNextCpRevoke (p : Policy) (e : EState) (num : Nat) : Except Kind EState := do
-  if num = 0 then
-    policyErr p .policyOther
+  whenE (decide (num = 0)) (policyErr p .policyOther)
   check p .previousRevoked (decide (num + 2 < e.nextCp))
   check p .previousRevoked (decide (num + 1 > e.nextCp))
   check p .previousRevoked (decide (num ≠ e.nextRevoke ∧ num ≠ e.nextRevoke + 1))
-  if num = 0 then .error .panic  -- assert_ne!(num, 0)
+  whenE (decide (num = 0)) (.error .panic)  -- assert_ne!(num, 0)
   let e1 : EState := if num + 1 ≥ e.nextCp then { e with prevCpInfo := none } else e
   pure { e1 with nextRevoke := num }
 
@@ -435,11 +442,11 @@ def setNextCpRevoke (p : Policy) (e : EState) (num : Nat) : Except Kind EState :
 def signCounterparty (p : Policy) (s : Setup) (c : ChainState) (e : EState) (n : Nat) (point : Nat)
     (i : Info) : Except Kind EState := do
   validateChannelValue p s
-  if claimablePanics s i then .error .panic
+  whenE (claimablePanics s i) (.error .panic)
   validateCounterparty p s c e n point i
-  if msatPanics p i then .error .panic
+  whenE (msatPanics p i) (.error .panic)
   -- make_counterparty_commitment_tx: `INITIAL_COMMITMENT_NUMBER - commitment_number` (plain `-`)
-  if n > initialCommitmentNumber then .error .panic
+  whenE (decide (n > initialCommitmentNumber)) (.error .panic)
   let n1 ← addU64 n 1
   setNextCpCommit p e n1 point i
 
@@ -449,9 +456,9 @@ def validateHolderPhase2 (p : Policy) (s : Setup) (c : ChainState) (e : EState) 
     (sigsOk : Bool) : Except Kind EState := do
   -- get_per_commitment_point: `commitment_number > next_holder_commit_num + 1` (unfiltered)
   hard .seq (decide (n > e.nextHolder + 1))
-  if claimablePanics s i then .error .panic
+  whenE (claimablePanics s i) (.error .panic)
   validateHolder p s c e n i
-  if msatPanics p i then .error .panic
+  whenE (msatPanics p i) (.error .panic)
   hard .sig (!sigsOk)
   pure (if n = e.nextHolder then { e with nextHolderInfo := some i } else e)
 
@@ -460,7 +467,7 @@ def revokeHolder (p : Policy) (e : EState) (n : Nat) : Except Kind EState := do
   if n ≠ e.nextHolder then
     -- release_commitment_secret(n): point n+1 must be ≤ next+1; secret n-1 needs n+1 ≤ next
     hard .seq (decide (n + 1 > e.nextHolder + 1))
-    if n ≥ 1 then check p .revokeNewCommitmentSigned (decide (n - 1 + 2 > e.nextHolder))
+    whenE (decide (n ≥ 1)) (check p .revokeNewCommitmentSigned (decide (n - 1 + 2 > e.nextHolder)))
     pure e
   else
     check p .revokeNotClosed e.closed
@@ -471,16 +478,19 @@ def revokeHolder (p : Policy) (e : EState) (n : Nat) : Except Kind EState := do
     | some i =>
       pure { e with nextHolderInfo := none, nextHolder := n + 1, curHolderInfo := some i }
 
+def cpRevokePoint (p : Policy) (e : EState) (n truePoint : Nat) : Except Kind Unit :=
+  match prevSel e n e.curCpPoint e.prevCpPoint with
+  | none => policyErr p .previousRevoked
+  | some prev => check p .previousRevoked (decide (truePoint ≠ prev))
+
 /-- `Channel::validate_counterparty_revocation` with the *true* secret of counterparty commitment `n`
     (its point id is `truePoint`). -/
 def cpRevoke (p : Policy) (e : EState) (n : Nat) (truePoint : Nat) : Except Kind EState := do
   let n1 ← addU64 n 1
   check p .previousRevoked (decide (n ≠ e.nextRevoke ∧ n1 ≠ e.nextRevoke))
-  if n1 ≠ e.nextCp then
-    let _ ← addU64 n 2   -- `num + 2 == next` in get_previous_counterparty_point
-  match prevSel e n e.curCpPoint e.prevCpPoint with
-  | none => policyErr p .previousRevoked
-  | some prev => check p .previousRevoked (decide (truePoint ≠ prev))
+  -- `num + 2 == next` in get_previous_counterparty_point
+  whenE (decide (n1 ≠ e.nextCp)) (do let _ ← addU64 n 2; pure ())
+  cpRevokePoint p e n truePoint
   setNextCpRevoke p e n1
 
 end VlsModel.Policy
